@@ -91,14 +91,17 @@ def routedSvcOk (ds : List Decl) (b : Body) (tick : Nat) (o0 o1 : List VarObs) (
 
 def untouched (o0 o1 : List VarObs) (evs : List (List Str)) : Bool := o0 == o1 && evs.isEmpty
 
+/-- all services, by index: the `target` service (if any) against `routedSvcOk`, every other one untouched -/
+def svcsOkAux (b : Body) (tick : Nat) (target : Option Nat) :
+    Nat → List (List Decl) → List (List VarObs) → List (List VarObs) → List (List (List Str)) → Bool
+  | _, [], [], [], [] => true
+  | i, ds :: dr, o0 :: r0, o1 :: r1, ev :: re =>
+    (if target == some i then (!bodyWF b || routedSvcOk ds b tick o0 o1 ev) else untouched o0 o1 ev)
+    && svcsOkAux b tick target (i + 1) dr r0 r1 re
+  | _, _, _, _, _ => false
+
 def svcsOk (decls : List (List Decl)) (o : NObs) (target : Option Nat) : Bool :=
-  o.before.length == decls.length && o.after.length == decls.length && o.events.length == decls.length
-  && ((List.range decls.length).all fun i =>
-      let ds := decls.getD i []
-      let o0 := o.before.getD i []
-      let o1 := o.after.getD i []
-      let ev := o.events.getD i []
-      if target == some i then (!bodyWF o.n.body || routedSvcOk ds o.n.body o.tick o0 o1 ev) else untouched o0 o1 ev)
+  svcsOkAux o.n.body o.tick target 0 decls o.before o.after o.events
 
 /-- **C10.stepOk** — judge of one NOTIFY request -/
 def stepOk (decls : List (List Decl)) (o : NObs) : Bool :=
@@ -106,5 +109,21 @@ def stepOk (decls : List (List Decl)) (o : NObs) : Bool :=
   && svcsOk decls o (if specStatus o.n.hdrs == 200 then o.routedTo else none)
 
 def ok (decls : List (List Decl)) (h : List NObs) : Bool := h.all (stepOk decls)
+
+/-! ### the model's observations -/
+
+def svcObs (s : Svc) : List VarObs := s.vars.map fun v => (v.decl.name, v.st.stored.read, v.st.updated)
+
+/-- what the driver compares the implementation's observations with -/
+def modelObs (h : Handler) (n : Notify) (tick : Nat) : NObs :=
+  let r := handleNotify h n tick
+  { n := n, tick := tick, routedTo := n.hdrs.sid.bind (get? h.rt), res := r.2,
+    before := h.svcs.map svcObs, after := r.1.svcs.map svcObs,
+    events := (h.svcs.zip r.1.svcs).map fun p => p.2.events.drop p.1.events.length }
+
+/-- a sequence of NOTIFY requests; request number `k` arrives at tick `k` -/
+def modelTrace : Handler → List Notify → Nat → List NObs
+  | _, [], _ => []
+  | h, n :: r, k => modelObs h n k :: modelTrace (handleNotify h n k).1 r (k + 1)
 
 end Upnp.C10
